@@ -14,6 +14,7 @@ are VALIDATED by
       (stdout, uncaught-error outcome, exit status); plus a few real single-program projects built
       from the unmodified generated register.go / main.go / go.mod.
 """
+import hashlib
 import json
 import os
 import re
@@ -32,7 +33,7 @@ NONDET_SRC = re.compile(
     r"\b(time|microtime|hrtime|date|gmdate|strftime|mktime|strtotime|rand|mt_rand|random_int|random_bytes|"
     r"uniqid|shuffle|array_rand|str_shuffle|getmypid|memory_get_usage|memory_get_peak_usage|sleep|usleep|"
     r"tempnam|tmpfile|sys_get_temp_dir|spawn|curl_init|fsockopen|stream_socket_client|proc_open|"
-    r"shell_exec|system|passthru|gethostname|php_uname|spl_object_id|spl_object_hash|lcg_value|"
+    r"shell_exec|system|passthru|gethostname|php_uname|lcg_value|"
     r"file_put_contents|mkdir|unlink|rmdir|touch|fwrite|set_time_limit)\s*\(|new\s+\\?(DateTime|DateTimeImmutable|DateTimeZone)|"
     r"\b(pcntl_|posix_)|\bgo\s+(function|fn|\$)|->listen\(|->serve\(|Net\\\\Http|Channel|\$argv|\$argc|\['argv'\]")
 
@@ -80,6 +81,10 @@ FEATURES = [
     ("global_const", "define('GC{S}', 12); const HC{S} = 'hc'; echo GC{S}, HC{S}, \"\\n\";"),
     ("static_local", "function cnt{S}() { static $n = 0; $n = $n + 1; return $n; } cnt{S}(); cnt{S}(); echo cnt{S}(), \"\\n\";"),
     ("multi_assign", "function two{S}() { return [1, 2]; } $ma{S}, $mb{S} = two{S}(); echo $ma{S}, $mb{S}, \"\\n\";"),
+    ("closure_falloff", "$fo{S} = function($y) { $z = $y + 1; }; $fa{S} = fn($y) => $y + 1; echo json_encode($fo{S}(1)), json_encode($fa{S}(1)), \"\\n\";"),
+    ("new_variable", "class NV{S} { public $v; function __construct($v = 0) { $this->v = $v; } } $cn{S} = 'NV{S}'; $nv{S} = new $cn{S}(3); echo $nv{S}->v, \"\\n\";"),
+    ("new_self_static_args", "class NS2{S} { public $v; function __construct($v = 0) { $this->v = $v; } static function a() { return new self(4); } static function b() { return new static(5); } } echo NS2{S}::a()->v, NS2{S}::b()->v, \"\\n\";"),
+    ("array_int_keys", "$ik{S} = [1 => 'a', 5 => 'b', 'k' => 'c']; $ik{S}[] = 'd'; echo json_encode($ik{S}), \"\\n\";"),
     ("list_assign", "[$la{S}, $lb{S}] = [1, 2]; echo $la{S}, $lb{S}, \"\\n\";"),
     ("incr_ops", "$u{S} = 1; $u{S}++; ++$u{S}; $u{S} += 3; $u{S} -= 1; $u{S} *= 2; $w{S} = 'a'; $w{S} .= 'b'; echo $u{S}, $w{S}, \"\\n\";"),
     ("uncaught_throw", "echo \"before\\n\"; throw new Exception('uncaught{S}'); echo 'after';"),
@@ -210,7 +215,10 @@ def string_programs(rng, quick):
             l = lit(b)
             if l is None:
                 continue
-            lines.append("p_%s('%s', %s);" % (form, sid, l))
+            if form in ("heredoc", "nowdoc"):
+                lines.append("$s = %s;\np_%s('%s', $s);" % (l, form, sid))     # this parser does not take a heredoc as a call argument
+            else:
+                lines.append("p_%s('%s', %s);" % (form, sid, l))
         # the same literals in the other positions a string constant is emitted from: array keys/values,
         # default parameter values, class constants, match arms
         progs.append(("strlit_" + form, "\n".join(lines) + "\n"))
@@ -222,6 +230,79 @@ def string_programs(rng, quick):
                    % (k, l, k, l, l, l, l, sid, k, k, k))
     progs.append(("strlit_positions", "\n".join(pos) + "\n"))
     return progs, strs
+
+
+# ---------------------------------------------------------------------------- generated expression / control-flow programs
+# seeded random expression trees (ints, floats incl. -0.0 / huge / INF / NAN, strings, booleans, null;
+# arithmetic, comparison, logic, concatenation, ternary, null coalescing, calls) inside randomly nested
+# control flow: the operands are not constants chosen by hand, and every literal kind reaches the scalar emitters
+def gen_expr(rng, depth, vars_):
+    if depth <= 0 or rng.random() < 0.25:
+        k = rng.random()
+        if k < 0.3 and vars_:
+            return rng.choice(vars_)
+        if k < 0.55:
+            return str(rng.choice([0, 1, 2, 3, 7, 10, 255, 1000, -1, -17, 2147483647, 9007199254740993]))
+        if k < 0.75:
+            return rng.choice(["0.5", "1.5", "-0.0", "0.1", "2.0", "1e3", "1.0E+25", "-2.5e-3", "3.0", "INF", "-INF", "NAN", "1e308 * 10"])
+        if k < 0.9:
+            return rng.choice(["'a'", "'12'", "'1e1'", "''", "'x y'", "\"q\\n\"", "'0'", "' 5'"])
+        return rng.choice(["true", "false", "null"])
+    a = gen_expr(rng, depth - 1, vars_)
+    b = gen_expr(rng, depth - 1, vars_)
+    k = rng.random()
+    if k < 0.30:
+        return "(%s %s %s)" % (a, rng.choice(["+", "-", "*"]), b)
+    if k < 0.36:
+        return "(%s %% ((int)%s %% 7 + 9))" % (a, b)
+    if k < 0.50:
+        return "(%s %s %s)" % (a, rng.choice(["==", "===", "!=", "!==", "<", "<=", ">", ">=", "<=>"]), b)
+    if k < 0.60:
+        return "(%s %s %s)" % (a, rng.choice(["&&", "||"]), b)
+    if k < 0.68:
+        return "(%s . %s)" % (a, b)
+    if k < 0.76:
+        return "(%s ? %s : %s)" % (a, b, gen_expr(rng, depth - 1, vars_))
+    if k < 0.82:
+        return "(%s ?? %s)" % (a, b)
+    if k < 0.88:
+        return "(!%s)" % a
+    if k < 0.93:
+        return "(-%s)" % a
+    return rng.choice(["abs((int)%s)", "max((int)%s, 3)", "strlen((string)%s)", "intdiv((int)%s, 7)", "(int)%s", "(float)%s", "(string)%s", "(bool)%s"]) % a
+
+
+def gen_block(rng, depth, vars_, counter):
+    out = []
+    for _ in range(rng.randint(1, 3)):
+        k = rng.random()
+        v = "$v%d" % counter[0]
+        counter[0] += 1
+        if depth <= 0 or k < 0.45:
+            out.append("%s = %s; echo json_encode(@(%s)), var_export(%s, true), \"\\n\";" % (v, gen_expr(rng, 3, vars_), v, v))
+            vars_ = vars_ + [v]
+        elif k < 0.60:
+            out.append("if (%s) { %s } else { %s }" % (gen_expr(rng, 2, vars_), gen_block(rng, depth - 1, vars_, counter), gen_block(rng, depth - 1, vars_, counter)))
+        elif k < 0.72:
+            i = "$i%d" % counter[0]
+            out.append("for (%s = 0; %s < %d; %s++) { if (%s == 1) { continue; } %s }" % (i, i, rng.randint(1, 3), i, i, gen_block(rng, depth - 1, vars_ + [i], counter)))
+        elif k < 0.82:
+            i = "$w%d" % counter[0]
+            out.append("%s = %d; while (%s > 0) { %s--; %s if (%s == 1) { break; } }" % (i, rng.randint(1, 3), i, i, gen_block(rng, depth - 1, vars_ + [i], counter), i))
+        elif k < 0.91:
+            out.append("foreach ([%s, %s] as $fk%d => $fv%d) { %s }" % (gen_expr(rng, 1, vars_), gen_expr(rng, 1, vars_), counter[0], counter[0],
+                                                                      gen_block(rng, depth - 1, vars_ + ["$fk%d" % counter[0], "$fv%d" % counter[0]], counter)))
+        else:
+            out.append("switch ((int)%s %% 3) { case 0: echo 'z'; break; case 1: echo 'o'; default: echo 'd'; } echo \"\\n\";" % gen_expr(rng, 2, vars_))
+    return " ".join(out)
+
+
+def gen_programs(rng, n):
+    progs = []
+    for k in range(n):
+        body = gen_block(rng, 3, [], [0])
+        progs.append(("gen_%02d" % k, "<?php\n" + body.replace("; ", ";\n") + "\n"))
+    return progs
 
 
 # ---------------------------------------------------------------------------- include / require that cannot load
@@ -440,8 +521,14 @@ def run_engine(engine, reqs, cwd, timeout=1200):
     return outs, p
 
 
+POS = re.compile(r"(\.php|\.zy|\.go)(:\d+(:\d+)?| on line \d+)")
+
+
 def norm_run(r):
-    return (r.get("outcome"), TS.sub("<ts>", r.get("out", "")), bool(r.get("exit_fail")), r.get("exit_code", 0))
+    """outcome, stdout, exit decision and status, the uncaught error (class + message) and stderr;
+    source positions inside the error text are normalised (compiled programs carry none: known finding)"""
+    return (r.get("outcome"), TS.sub("<ts>", r.get("out", "")), bool(r.get("exit_fail")), r.get("exit_code", 0),
+            POS.sub(r"\1:<pos>", r.get("detail") or ""), POS.sub(r"\1:<pos>", TS.sub("<ts>", r.get("stderr") or "")))
 
 
 # ---------------------------------------------------------------------------- main
@@ -489,7 +576,7 @@ def main(ck):
             progs[p] = {"kind": "feature", "features": [name], "src": src}
         sprogs, _ = string_programs(rng, quick)
         stress = stress_strings(rng, 100)
-        for name, src in sprogs + include_programs():
+        for name, src in sprogs + include_programs() + gen_programs(rng, 16 if quick else 150):
             p = os.path.join(gen_dir, "x_%s.php" % name)
             write_src(p, src)
             progs[p] = {"kind": "feature", "features": [name], "src": src}
@@ -544,8 +631,19 @@ def main(ck):
                            "nondet": bool(NONDET_SRC.search(txt)) or "run_tests" in path}
     ck.cov["compile_wall_s"] = round(time.time() - t0, 1)
     for f, msg in sorted(rejected_all.items()):
-        # a rejected file is a reported compile error: acceptable, counted
-        pass
+        # a rejected file is a reported compile error - the property allows that ("never a silently wrong
+        # program") - but a construct the command cannot translate is a limit of the compiler worth a line:
+        # each rejection is reported (a change that makes the emitter reject what it used to accept - a new
+        # unexported field in a node type, say - shows up here instead of shrinking the corpus silently)
+        meta = progs.get(f, {})
+        name = (meta.get("features") or [os.path.relpath(f, repo) if f.startswith(repo) else os.path.basename(f)])[0]
+        kind = "corpus" if f.startswith(repo) else "feature"
+        first = [l.strip() for l in msg.split("\n") if l.strip()]
+        why = re.sub(r"0x[0-9a-f]+", "0x", " | ".join(first[1:3]) if len(first) > 1 else (first[0] if first else ""))[:160]
+        ck.violation("reject:%s=%s" % (kind, name), {"case": {"kind": "reject", "file": os.path.relpath(f, repo) if f.startswith(repo) else None,
+                                                              "src": meta.get("src"), "features": meta.get("features")},
+                                                     "impl_out": msg[:1500],
+                                                     "clause": "the compile command rejects a program the interpreter runs (%s)" % why})
     ck.cov["files_rejected_by_compile"] = {os.path.relpath(f, repo) if f.startswith(repo) else os.path.basename(f): m[:200] for f, m in sorted(rejected_all.items())}
 
     # ---- assemble and build the project
@@ -730,6 +828,47 @@ def main(ck):
     evaluations += len(pterms) + len(subterms)
     traces += len(pterms) + len(subterms)
     ck.cov["programs_compared_structurally"] = len(pterms)
+    # where the structural comparison is vacuous: fields of handler-emitted node types that no parsed program
+    # of this run carried with a non-default value (a handler that dropped such a field would not be noticed)
+    special_types = {t["name"] for t in table if t["handler"] == "special"}
+    exercised, seen_types = set(), set()
+
+    def is_default(v):
+        if v is None:
+            return True
+        if isinstance(v, dict):
+            if "s" in v:
+                return v["s"] in ('""', "0", "false", "node")
+            if "l" in v:
+                return not v["l"]
+            if "m" in v:
+                return not v["m"]
+        return False
+
+    def walk_fields(v):
+        if isinstance(v, dict):
+            if "n" in v or "st" in v:
+                tn = v.get("n") or v.get("st")
+                if tn in special_types:
+                    seen_types.add(tn)
+                for f in v.get("f") or []:
+                    if tn in special_types and not is_default(f[1]):
+                        exercised.add("%s.%s" % (tn, f[0]))
+                    walk_fields(f[1])
+            else:
+                for x in v.values():
+                    walk_fields(x)
+        elif isinstance(v, list):
+            for x in v:
+                walk_fields(x)
+    for sres in structs:
+        walk_fields(sres.get("parsed"))
+    never = sorted("%s.%s" % (t["name"], f["name"]) for t in table if t["name"] in seen_types
+                   for f in (t.get("fields") or []) if not f["node"] and f["exported"] and not f["pp"]
+                   and "%s.%s" % (t["name"], f["name"]) not in exercised)
+    ck.cov["special_handler_types_seen_in_programs"] = "%d of %d" % (len(seen_types), len(special_types))
+    ck.cov["special_handler_types_never_seen"] = sorted(special_types - seen_types)
+    ck.cov["special_handler_fields_never_non_default (structural comparison vacuous there)"] = never
     ck.cov["handler_free_subtrees_checked_against_the_model"] = len(subterms)
     for j, cl in sorted(sbad.items()):
         ck.broken.append("correspondence:C16.emit")
@@ -760,6 +899,7 @@ def main(ck):
     evaluations += 2 * len(e2e)
     ndiff = 0
     nmulti = 0
+    e2e_keys = []
     for r in e2e:
         meta = progs.get(r["file"], {})
         if r.get("err"):
@@ -772,8 +912,8 @@ def main(ck):
         if a == b:
             continue
         ndiff += 1
-        what = "output" if a[1] != b[1] else ("outcome" if a[0] != b[0] else "exit-status")
-        LINE = re.compile(r"(\.php|\.zy):\d+(:\d+)?")
+        what = "output" if a[1] != b[1] else ("outcome" if a[0] != b[0] else ("exit-status" if a[2:4] != b[2:4] else ("error" if a[4] != b[4] else "stderr")))
+        LINE = re.compile(r"(\.php|\.zy)(:\d+(:\d+)?| on line \d+)")
         if what == "output" and a[0] == b[0] and a[2:] == b[2:] and LINE.sub(r"\1:<line>", a[1]) == LINE.sub(r"\1:<line>", b[1]):
             # the only difference is a source position printed by the program (var_dump's file:line prefix, ...)
             ck.violation("e2e:positions:printed-line-number", {"case": {"kind": "e2e", "file": os.path.relpath(r["file"], repo) if r["file"].startswith(repo) else None,
@@ -781,18 +921,26 @@ def main(ck):
                                                                "impl_out": {"interpreted": r["interpreted"], "compiled": r["compiled"]},
                                                                "clause": "compiled and interpreted output differ only in a printed source line number"})
             continue
+        # the key names WHAT differs and where: component, the compiled side's outcome, the first differing
+        # output line (number + digest of the two lines), so that a known entry covers this difference only
+        la, lb = a[1].split("\n"), b[1].split("\n")
+        k = next((i for i in range(max(len(la), len(lb))) if (la[i] if i < len(la) else None) != (lb[i] if i < len(lb) else None)), None)
+        sig = "same-output" if k is None else "L%d-%s" % (k + 1, hashlib.sha1(("%r|%r" % (la[k] if k < len(la) else None, lb[k] if k < len(lb) else None)).encode("utf-8", "replace")).hexdigest()[:6])
+        tail = "%s:compiled=%s:%s" % (what, b[0], sig)
         if meta.get("kind") == "feature":
-            key = "e2e:feature=%s:%s" % (meta["features"][0], what)
+            key = "e2e:feature=%s:%s" % (meta["features"][0], tail)
         elif meta.get("kind") == "combo":
-            key = "e2e:combo=%s:%s" % ("+".join(sorted(meta["features"])), what)
+            key = "e2e:combo=%s:%s" % ("+".join(sorted(meta["features"])), tail)
         else:
-            key = "e2e:corpus=%s:%s" % (meta.get("features", ["?"])[0], what)
+            key = "e2e:corpus=%s:%s" % (meta.get("features", ["?"])[0], tail)
+        e2e_keys.append(key)
         ck.violation(key, {"case": {"kind": "e2e", "file": os.path.relpath(r["file"], repo) if r["file"].startswith(repo) else None,
                                     "src": meta.get("src"), "features": meta.get("features")},
                            "impl_out": {"interpreted": r["interpreted"], "compiled": r["compiled"]},
                            "clause": "compiled and interpreted runs differ in %s" % what})
     ck.cov["e2e_programs"] = len(e2e)
     ck.cov["e2e_programs_that_differ"] = ndiff
+    ck.cov["e2e_difference_keys (known or reported)"] = sorted(e2e_keys)
     ck.cov["e2e_corpus_files_skipped_because_they_load_sibling_files"] = nmulti
     ck.cov["program_kinds"] = {k: sum(1 for m in progs.values() if m["kind"] == k) for k in ("feature", "combo", "corpus")}
 
@@ -842,6 +990,54 @@ def main(ck):
             except subprocess.TimeoutExpired:
                 res[side] = {"out": "", "exit": "timeout"}
         return f, res, None
+    # ---- a real MULTI-FILE project: the entry includes / requires compiled siblings (the mechanism the property
+    # names: RegisterCompiledFile, "run instead of parsing")
+    MULTI = {
+        "app.php": "<?php\necho \"start\\n\";\n$cfg = include __DIR__ . '/lib/cfg.php';\necho $cfg['n'], \"\\n\";\n"
+                   "require_once __DIR__ . '/lib/fn.php';\nrequire_once __DIR__ . '/lib/fn.php';\necho fn_twice(4), \"\\n\";\n"
+                   "include_once __DIR__ . '/lib/greeter.php';\necho (new Greeter('w'))->hi(), \"\\n\";\n",
+        "lib/cfg.php": "<?php\nreturn ['n' => 21];\n",
+        "lib/fn.php": "<?php\nfunction fn_twice($x) { return 2 * $x; }\necho \"fn loaded\\n\";\n",
+        "lib/greeter.php": "<?php\nclass Greeter { private $n; function __construct($n) { $this->n = $n; } function hi() { return 'hi ' . $this->n; } }\n",
+    }
+
+    def real_multi():
+        src = os.path.join(work, "real", "multi", "src")
+        out = os.path.join(work, "real", "multi", "out")
+        for rel, text in MULTI.items():
+            os.makedirs(os.path.dirname(os.path.join(src, rel)), exist_ok=True)
+            open(os.path.join(src, rel), "w").write(text)
+        entry = os.path.join(src, "app.php")
+        p = subprocess.run([origami, "compile", src, "--build", "--entry=" + entry, "-o", out], cwd=repo,
+                           stdout=subprocess.PIPE, stderr=subprocess.STDOUT, text=True, timeout=600)
+        if not os.path.exists(os.path.join(out, "main.go")):
+            return None, "compile --build produced no main.go: " + p.stdout[-400:]
+        gm = open(os.path.join(out, "go.mod")).read()
+        if "replace github.com/php-any/origami" not in gm:
+            gm += "\nreplace github.com/php-any/origami => %s\n" % repo
+        open(os.path.join(out, "go.mod"), "w").write(gm)
+        shutil.copy(os.path.join(repo, "go.sum"), os.path.join(out, "go.sum"))
+        rc, o = vcheck.sh(["go", "build", "-o", "app", "."], cwd=out, env=vcheck.go_env(), timeout=900)
+        if rc != 0:
+            return None, "go build of the generated project failed: " + o[-600:]
+        res = {}
+        for side, cmd in (("compiled", [os.path.join(out, "app")]), ("interpreted", [origami, entry])):
+            q = subprocess.run(cmd, cwd=src, stdout=subprocess.PIPE, stderr=subprocess.PIPE, timeout=60)
+            res[side] = {"out": POS.sub(r"\1:<pos>", TS.sub("<ts>", q.stdout.decode("utf-8", "replace"))).replace(src, "<src>"), "exit": q.returncode,
+                         "stderr": POS.sub(r"\1:<pos>", q.stderr.decode("utf-8", "replace")).replace(src, "<src>")[-600:]}
+        return res, None
+    if replay is None or (replay and replay.get("kind") == "real-multi"):
+        res, err = real_multi()
+        evaluations += 2
+        if err:
+            ck.violation("real:multifile:build", {"case": {"kind": "real-multi", "files": MULTI}, "impl_out": err,
+                                                  "clause": "`origami compile --build` of a multi-file project must build"})
+        elif res["compiled"] != res["interpreted"]:
+            what = "output" if res["compiled"]["out"] != res["interpreted"]["out"] else ("exit-status" if res["compiled"]["exit"] != res["interpreted"]["exit"] else "stderr")
+            ck.violation("real:multifile:%s" % what, {"case": {"kind": "real-multi", "files": MULTI}, "impl_out": res,
+                                                      "clause": "a compiled project whose entry includes / requires its compiled siblings behaves like `origami app.php` (%s differs)" % what})
+        ck.cov["real_multi_file_project"] = "entry + 3 siblings: include with return value, require_once twice, include_once of a class file"
+
     t0 = time.time()
     with ThreadPoolExecutor(max_workers=max(2, min(6, vcheck.NCPU // 2))) as ex:
         reals = list(ex.map(real_project, real))
@@ -856,7 +1052,7 @@ def main(ck):
                                                          "clause": "`origami compile --build` project for an accepted source must build"})
             continue
         if res["compiled"] != res["interpreted"]:
-            LINE = re.compile(r"(\.php|\.zy):\d+(:\d+)?")
+            LINE = re.compile(r"(\.php|\.zy)(:\d+(:\d+)?| on line \d+)")
             if res["compiled"]["exit"] == res["interpreted"]["exit"] and LINE.sub(r"\1:<line>", res["compiled"]["out"]) == LINE.sub(r"\1:<line>", res["interpreted"]["out"]):
                 ck.violation("e2e:positions:printed-line-number", {"case": {"kind": "real", "src": meta["src"], "features": meta["features"]}, "impl_out": res,
                                                                    "clause": "the built binary and `origami file.php` differ only in a printed source line number"})
